@@ -1,0 +1,89 @@
+//go:build verif
+
+package metrics
+
+import (
+	"time"
+
+	pb "github.com/enfein/mieru/v3/pkg/metrics/metricspb"
+	"google.golang.org/protobuf/proto"
+)
+
+// Exports for the external verification harness (C19). Add-only; compiled only with -tags verif.
+
+const (
+	VerifRollUpInterval       = rollUpInterval
+	VerifRollUpToSecond       = rollUpToSecond
+	VerifRollUpSecondToMinute = rollUpSecondToMinute
+	VerifRollUpMinuteToHour   = rollUpMinuteToHour
+	VerifRollUpHourToDay      = rollUpHourToDay
+)
+
+// VerifHistoryEntry is a plain copy of one time series entry.
+type VerifHistoryEntry struct {
+	TimeUnixMilli int64
+	Delta         int64
+	RollUp        int32
+}
+
+// VerifNewTimeSeriesCounter creates an unregistered time series counter.
+func VerifNewTimeSeriesCounter(name string) *Counter {
+	return &Counter{name: name, timeSeries: true}
+}
+
+// VerifAddWithTime calls addWithTime.
+func VerifAddWithTime(c *Counter, delta int64, t time.Time) int64 {
+	return c.addWithTime(delta, t)
+}
+
+// VerifRollUp calls rollUp while holding the lock (it honours the operation counter).
+func VerifRollUp(c *Counter) {
+	c.mu.Lock()
+	defer c.mu.Unlock()
+	c.rollUp()
+}
+
+// VerifDoRollUp calls one pass of doRollUp while holding the lock.
+func VerifDoRollUp(c *Counter, fromLabel, toLabel int32, rollUpDuration, truncateDuration time.Duration) {
+	c.mu.Lock()
+	defer c.mu.Unlock()
+	c.doRollUp(pb.RollUpLabel(fromLabel), pb.RollUpLabel(toLabel), rollUpDuration, truncateDuration)
+}
+
+// VerifState returns the value, the operation count and a copy of the history.
+func VerifState(c *Counter) (value int64, op uint64, history []VerifHistoryEntry) {
+	c.mu.Lock()
+	defer c.mu.Unlock()
+	history = make([]VerifHistoryEntry, 0, len(c.history))
+	for _, h := range c.history {
+		history = append(history, VerifHistoryEntry{TimeUnixMilli: h.GetTimeUnixMilli(), Delta: h.GetDelta(), RollUp: int32(h.GetRollUp())})
+	}
+	return c.value, c.op, history
+}
+
+// VerifSetOp sets the operation count.
+func VerifSetOp(c *Counter, op uint64) {
+	c.mu.Lock()
+	defer c.mu.Unlock()
+	c.op = op
+}
+
+// VerifSetState overwrites the value and the history.
+func VerifSetState(c *Counter, value int64, history []VerifHistoryEntry) {
+	c.mu.Lock()
+	defer c.mu.Unlock()
+	c.value = value
+	c.history = make([]*pb.History, 0, len(history))
+	for _, h := range history {
+		c.history = append(c.history, &pb.History{
+			TimeUnixMilli: proto.Int64(h.TimeUnixMilli),
+			Delta:         proto.Int64(h.Delta),
+			RollUp:        pb.RollUpLabel(h.RollUp).Enum(),
+		})
+	}
+}
+
+// VerifLoadCounterFromMetricPB calls loadCounterFromMetricPB.
+func VerifLoadCounterFromMetricPB(dst *Counter, src *pb.Metric) {
+	loadCounterFromMetricPB(dst, src)
+}
